@@ -131,7 +131,8 @@ def run(ctx):
     # 3. counters together
     atb = ER.engine_methods(F).get("add_tx_to_block")
     upd = [g for g in (F.descendants(atb.id) if atb is not None else []) if g.kind == "closure"
-           and any(s["k"] == "assign" and s["lhs"].get("p") and s["lhs"]["p"][-1] == ".waiting_tx_count" for b in g.blocks for s in b["stmts"])]
+           and any(s["k"] == "assign" and s["lhs"].get("p") and s["lhs"]["p"][-1] == ".waiting_tx_count"
+                   and rvalue_origin(g, s["rv"], 0, frozenset(), 30)[0] != "const" for b in g.blocks for s in b["stmts"])]
     # the increment closure (not the first-tx reset which assigns the whole struct)
     R.floor("counter_update_closure", len(upd), 1)
     for g in upd:
